@@ -153,7 +153,8 @@ class Progress:
         return out
 
     def all_ok_paths_pass(self, fn, blocks):
-        stop = set(blocks) | error_blocks(fn)
+        # an Err/None built here and handed to `?` further on is an error path too (header None: the whole function)
+        stop = set(blocks) | error_blocks(fn) | error_then_try(fn, None, range(len(fn.blocks)))
         reach = fn.reachable(0, stop=stop)
         for b in reach:
             if fn.term(b)['k'] == 'return':
@@ -453,6 +454,54 @@ def reslice_progress(fn, header, body):
     return out
 
 
+def error_then_try(fn, header, body):
+    """blocks that build an `Err(..)` / `None` which the rest of the turn hands to `?`: the turn ends in a return, it cannot come
+    back to the loop header.  (After a closure or helper was spliced in, its error exit and its success exit meet in one block
+    before the `?`; without this the control-flow graph contains a way round the loop that no execution takes.)"""
+    from rules.shared import LocalFlow
+    body = set(body)
+    out = set()
+    lf = None
+    branches = [(b, t) for b, t in fn.calls(body) if callee_name(t).endswith('Try>::branch') and t['args']]
+    if not branches:
+        return out
+    for b in sorted(body):
+        for st in fn.blocks[b]['stmts']:
+            if st['k'] != 'assign' or st['place']['proj']:
+                continue
+            rv = st['rv']
+            if not (rv['k'] == 'aggregate' and rv.get('variant') in ('Err', 'None') and str(rv.get('adt', '')).endswith(('result::Result', 'option::Option'))):
+                continue
+            lf = lf or LocalFlow(fn)
+            L = st['place']['local']
+            M = lf.forward(L)
+            for cb, ct in branches:
+                a = op_base_local(ct['args'][0])
+                if a not in M:
+                    continue
+                # every way from b back to the header passes this `?`
+                between = fn.reachable(b, stop={cb} | (set(range(len(fn.blocks))) - body))
+                if header is None:
+                    if any(fn.term(x)['k'] == 'return' for x in between):
+                        continue
+                elif header in between - {b}:
+                    continue
+                # nothing else writes the carried value on the way
+                clean = True
+                for x in between:
+                    if x == b:
+                        continue
+                    for st2 in fn.blocks[x]['stmts']:
+                        if st2['k'] == 'assign' and st2['place']['local'] in M and not (LocalFlow.locals_of(st2['rv']) & M):
+                            clean = False
+                    t2 = fn.term(x)
+                    if t2['k'] == 'call' and t2['dest']['local'] in M and x != cb:
+                        clean = False
+                if clean:
+                    out.add(b)
+    return out
+
+
 def cycle_without(fn, header, body, removed):
     """is there a cycle through `header` inside `body` that avoids the `removed` blocks"""
     if header in removed:
@@ -551,6 +600,7 @@ def check(ctx, rep, rule):
                             if not any(ob in fn.reachable(f[4], stop={d_}) and b in fn.reachable(ob, stop={d_}) for ob in others):
                                 removed.add(b)
             removed |= counted_progress(fn, header, body)
+            removed |= error_then_try(fn, header, body)
             removed |= shrinking_progress(F, fn, header, body)
             removed |= reslice_progress(fn, header, body)
             removed |= worklist_progress(fn, header, body)
